@@ -317,9 +317,66 @@ func mutateParams(p *channel.Params) {
 func side() bool { return rt.Choice(2) == 0 }
 
 // VerifC19Values: Balances, Allocation, State, Transaction and the slice helpers.
+// spare gives every slice reachable from a spare capacity (as slices have
+// after elements were removed from them, e.g. by RemoveSubAlloc): a clone that
+// keeps the backing array of a slice is then caught by appending on both sides.
+func spare(a *channel.Allocation) {
+	extra := gen.SubAlloc(len(a.Assets), 1)
+	if a.Locked != nil || rt.NondetBool() {
+		a.AddSubAlloc(extra)
+		if err := a.RemoveSubAlloc(extra); err != nil { // (the real API: leaves len-1, cap >= len)
+			rt.Assume(false)
+		}
+	}
+	for i := range a.Balances {
+		a.Balances[i] = append(a.Balances[i], gen.Bal())[:len(a.Balances[i])]
+	}
+	a.Balances = append(a.Balances, nil)[:len(a.Balances)]
+	a.Assets = append(a.Assets, gen.Asset())[:len(a.Assets)]
+	a.Backends = append(a.Backends, 0)[:len(a.Backends)]
+}
+
+// appendBoth appends different elements to every slice of x and of y and checks
+// that neither side sees the other's element.
+func appendBoth(x, y *channel.Allocation) {
+	sx, sy := gen.SubAlloc(len(x.Assets), 1), gen.SubAlloc(len(x.Assets), 1)
+	sx.ID[0], sy.ID[0] = 1, 2
+	x.AddSubAlloc(sx)
+	y.AddSubAlloc(sy)
+	rt.Assert("c19.spare.locked", x.Locked[len(x.Locked)-1].ID[0] == 1 && y.Locked[len(y.Locked)-1].ID[0] == 2)
+	for i := range x.Balances {
+		bx, by := big.NewInt(1), big.NewInt(2)
+		x.Balances[i] = append(x.Balances[i], bx)
+		y.Balances[i] = append(y.Balances[i], by)
+		rt.Assert("c19.spare.balances", x.Balances[i][len(x.Balances[i])-1] == bx && y.Balances[i][len(y.Balances[i])-1] == by)
+	}
+	ax, ay := gen.Asset(), gen.Asset()
+	x.Assets, y.Assets = append(x.Assets, ax), append(y.Assets, ay)
+	rt.Assert("c19.spare.assets", x.Assets[len(x.Assets)-1] == ax && y.Assets[len(y.Assets)-1] == ay)
+	x.Backends, y.Backends = append(x.Backends, 7), append(y.Backends, 8)
+	rt.Assert("c19.spare.backends", x.Backends[len(x.Backends)-1] == 7 && y.Backends[len(y.Backends)-1] == 8)
+	rx, ry := gen.Bals(1), gen.Bals(1)
+	x.Balances, y.Balances = append(x.Balances, rx), append(y.Balances, ry)
+	rt.Assert("c19.spare.rows", &x.Balances[len(x.Balances)-1][0] == &rx[0] && &y.Balances[len(y.Balances)-1][0] == &ry[0])
+}
+
 func VerifC19Values() {
 	gen.Setup()
-	switch rt.Choice(5) {
+	switch rt.Choice(6) {
+	case 5: // slices with spare capacity (after removals): Allocation and State clones
+		x := shapeAlloc()
+		spare(&x)
+		if rt.NondetBool() {
+			y := x.Clone()
+			rt.Assert("c19.spare.equal", x.Equal(&y) == nil)
+			appendBoth(&x, &y)
+		} else {
+			sx := &channel.State{ID: gen.ID(), Version: rt.NondetU64(), App: channel.NoApp(), Data: channel.NoData(), Allocation: x}
+			sy := sx.Clone()
+			rt.Assert("c19.spare.equal", sx.Equal(sy) == nil)
+			appendBoth(&sx.Allocation, &sy.Allocation)
+		}
+		rt.Reach("c19.spare")
 	case 0: // Allocation (also covers Balances.Clone, CloneBals, CloneIndexMap)
 		x := shapeAlloc()
 		y := x.Clone()
